@@ -85,6 +85,10 @@ pub fn gen(out: &mut Out, _sub: &str) {
         k.w_callind = 6;
         k.w_branch = 6;
         k.w_cbranch_branch = 6;
+        // conditionally executed calls: the call is the SECOND jump of its block
+        k.w_cbranch_call_internal = 10;
+        k.w_cbranch_call_extern = 2;
+        k.w_cbranch_callind = 2;
         k.pct_empty_sub = 10;
         let mut prog = irgen::gen_program(&mut r, &k);
         if i % 4 == 3 {
